@@ -186,3 +186,41 @@ def iter_parts(score_spec):
                 yield x
 
     return list(rec(score_spec["parts"]))
+
+
+# ---------------------------------------------------------------------------------------------
+# building the real score (ir.build_part plus the few kinds ir does not know)
+
+_DYNWORDS = {"crescendo": "IncreasingLoudnessDirection", "diminuendo": "DecreasingLoudnessDirection",
+             "ritardando": "DecreasingTempoDirection", "accelerando": "IncreasingTempoDirection"}
+
+
+def build_part(spec):
+    import partitura.score as S
+
+    extra = [o for o in spec["objs"] if o["k"] == "dynwords" or (o["k"] == "fermata" and o.get("bar"))]
+    base = dict(spec, objs=[o for o in spec["objs"] if not any(o is x for x in extra)])
+    part = ir.build_part(base)
+    for o in extra:
+        if o["k"] == "dynwords":
+            d = getattr(S, _DYNWORDS[o["text"]])(o["text"], staff=o.get("staff"))
+            part.add(d, o["s"], o.get("e"))
+        else:
+            part.add(S.Fermata(o["ref"]), o["s"])
+    return part
+
+
+def build_score(spec):
+    import partitura.score as S
+
+    def rec(x):
+        if "group" in x:
+            g = x["group"]
+            pg = S.PartGroup(g.get("symbol"), g.get("name"), g.get("number"))
+            pg.children = [rec(c) for c in x["children"]]
+            for c in pg.children:
+                c.parent = pg
+            return pg
+        return build_part(x)
+
+    return S.Score([rec(x) for x in spec["parts"]])
